@@ -260,6 +260,21 @@ def step(op, regs, F, feats):
         if err is not None:
             unexpected(err)
         bind(regs, v, cells, sh)
+    elif kind == 'make':                         # the constructor from a chunk list (CHText.make): non-empty chunks only -
+        parts = [operand(o) for o in op[1]]      # it keeps an empty chunk it is given, which nothing in the statement covers
+        cells, sh = [], ''
+        for _o, c, s in parts:
+            cat(cells, c, feats)
+            sh += s
+        chunks = [p[0] for p in parts]
+        before = list(chunks)
+        v, err = real(lambda: akcolor.CHText.make(chunks))
+        if err is not None:
+            unexpected(err)
+        if len(chunks) != len(before) or any(a is not b for a, b in zip(chunks, before)):
+            raise Fail('text_matches_str', 'make:argument-changed', f"{op}: CHText.make changes the list it is given")
+        feats.add('make')
+        bind(regs, v, cells, sh)
     elif kind in ('add', 'iadd'):
         r = reg(op[1])
         if kind == 'iadd' and refers_to(op[2], regs, r):
@@ -659,6 +674,10 @@ def g_case(rnd, maxlen=8):
             ops.append(['fmt', rnd.randrange(n), g_spec(rnd), rnd.randrange(3)])
         else:
             ops.append(['cfmt', g_chunk(rnd), g_spec(rnd)])
+    if rnd.random() < .15:                       # appended so that the cases drawn for a seed before this existed stay the same
+        ops.append(['make', [['c', rnd.randrange(3), g_text(rnd) or 'q'] for _ in range(rnd.randint(0, 5))]])
+        if rnd.random() < .6:
+            ops.append(['slice', -1, g_bound(rnd), g_bound(rnd)])
     return {'ops': ops}
 
 
@@ -667,6 +686,8 @@ BASES = [
     [['s', 'a'], ['c', 1, 'b'], ['c', 1, 'c'], ['c', 0, 'd'], ['c', 2, 'ef']],
     [['c', 2, 'xyz']],
     [],
+    [['c', 1, 'a'], ['c', 1, 'bc'], ['c', 0, 'd'], ['c', 0, 'e'], ['c', 0, 'f'], ['c', 2, 'g'], ['c', 1, 'h'], ['c', 1, 'i']],
+    [['c', 0, 'ab'], ['c', 2, 'c'], ['c', 2, 'de']],
 ]
 
 
@@ -683,6 +704,11 @@ def exhaustive_cases(tier):
             yield {'ops': [new, ['idx', 0, i]]}
         for n in range(0, 10):
             yield {'ops': [new, ['fix', 0, n]]}
+        if all(o[0] == 'c' and o[2] for o in base) or not base:
+            yield {'ops': [['make', base]]}
+            for a in bounds[::3]:
+                for b_ in bounds[::2]:
+                    yield {'ops': [['make', base], ['slice', 0, a, b_]]}
         fills = [None, 'x', '0', '<', 's', '7'] if tier == 'thorough' else [None, 'x', '<']
         for align in (None, '<', '>', '^'):
             for fill in (fills if align else [None]):
